@@ -42,25 +42,32 @@ def residual(e: ast.AST, subject: str, K: str, env: Optional[Dict[str, ast.AST]]
         return e
     if isinstance(e, ast.Name) and e.id in env:
         return env[e.id]
+    def cname(x):
+        # a constant referred to by its name, possibly through its module (`MANY_TO_ONE`, `constants.MANY_TO_ONE`)
+        if isinstance(x, ast.Name):
+            return x.id
+        if isinstance(x, ast.Attribute) and isinstance(x.value, ast.Name) and x.attr.isupper():
+            return x.attr
+        return None
     if isinstance(e, ast.Compare) and len(e.ops) == 1 and norm(e.left) == subject:
         op, r = e.ops[0], e.comparators[0]
-        if isinstance(r, ast.Name):
+        if cname(r) is not None:
             if isinstance(op, ast.Eq):
-                return TRUE if r.id == K else FALSE
+                return TRUE if cname(r) == K else FALSE
             if isinstance(op, ast.NotEq):
-                return FALSE if r.id == K else TRUE
-        if isinstance(r, (ast.Tuple, ast.List, ast.Set)) and all(isinstance(x, ast.Name) for x in r.elts):
-            names = {x.id for x in r.elts}
+                return FALSE if cname(r) == K else TRUE
+        if isinstance(r, (ast.Tuple, ast.List, ast.Set)) and all(cname(x) is not None for x in r.elts):
+            names = {cname(x) for x in r.elts}
             if isinstance(op, ast.In):
                 return TRUE if K in names else FALSE
             if isinstance(op, ast.NotIn):
                 return FALSE if K in names else TRUE
         return e
-    if isinstance(e, ast.Compare) and len(e.ops) == 1 and len(e.comparators) == 1 and norm(e.comparators[0]) == subject and isinstance(e.left, ast.Name):
+    if isinstance(e, ast.Compare) and len(e.ops) == 1 and len(e.comparators) == 1 and norm(e.comparators[0]) == subject and cname(e.left) is not None:
         if isinstance(e.ops[0], ast.Eq):
-            return TRUE if e.left.id == K else FALSE
+            return TRUE if cname(e.left) == K else FALSE
         if isinstance(e.ops[0], ast.NotEq):
-            return FALSE if e.left.id == K else TRUE
+            return FALSE if cname(e.left) == K else TRUE
     if isinstance(e, ast.Compare) and len(e.ops) == 1 and len(e.comparators) == 1:
         # a comparison between values that are known once the dispatch is decided (a flag / side number computed from the kind)
         a = residual(e.left, subject, K, env, depth + 1)
